@@ -21,7 +21,7 @@ CONSTANTS
   WPIts = {0, 2}
   QV <- QQV
   SL = 3
-  UV = {0, 1, 2, 4, 6}
+  UV <- QUV
   ULens = {2, 3}
   URanges <- QURanges
   LinConds <- QLin
